@@ -111,6 +111,9 @@ Qed.
 Lemma wacc_app s y x q v : wrun (fl_trans s) (Some y) x = Some q -> wacc s y (x ++ v) = wacc s q v.
 Proof. intro H. unfold wacc. rewrite wrun_app, H. reflexivity. Qed.
 
+Lemma wacc_true_run s y w : wacc s y w = true -> exists q, wrun (fl_trans s) (Some y) w = Some q.
+Proof. unfold wacc. destruct (wrun (fl_trans s) (Some y) w) as [q|]; [eauto|discriminate]. Qed.
+
 Section Final.
   Variables (s : flst) (done : list word).
   Hypothesis HI : Inv s done [].
@@ -149,5 +152,95 @@ Section Final.
   Proof.
     destruct (longest_word done Hne) as [w [Hw Hmax]].
     assert (Hr : wacc s [] w = true) by (apply (i_lang _ _ _ HI [] (pre_nil _)); exact Hw).
+    destruct (wacc_true_run s [] w Hr) as [q Eq].
+    exists w, q. split; [exact Eq|]. intro a. destruct (wdelta (fl_trans s) q a) as [t|] eqn:Ed; [|reflexivity]. exfalso.
+    assert (Htn : t <> []) by (intro E; subst t; exact (no_edge_to_root _ _ _ _ _ HI Ed)).
+    destruct (i_live _ _ _ HI t (i_closed _ _ _ HI _ _ _ Ed) Htn) as [v Hv].
+    assert (Hacc : wacc s [] (w ++ a :: v) = true).
+    { rewrite (wacc_app s [] w q (a :: v) Eq), wacc_cons, Ed. exact Hv. }
+    apply (i_lang _ _ _ HI [] (pre_nil _)) in Hacc. simpl in Hacc. specialize (Hmax _ Hacc). rewrite app_length in Hmax. simpl in Hmax. lia.
+  Qed.
+End Final.
+
+(* ---------- the numbered DFA, partial and complete ---------- *)
+Section NumberedMinimal.
+  Variables (syms : list nat) (s : flst) (done : list word).
+  Hypothesis HI : Inv s done [].
+  Hypothesis HM : InvM s [].
+  Hypothesis Hne : done <> [].
+  Hypothesis Hnd : NoDup syms.
+  Hypothesis Hover : forall w, In w done -> word_over syms w.
+
+  Let keys := fl_names s.
+  Let g := wnum keys.
+  Let m := fl_number syms s.
+
+  Lemma m_valid : valid_dfa m = true.
+  Proof. exact (num_valid syms s done HI Hnd Hover). Qed.
+
+  Lemma state_key i : In i (d_states m) -> exists q, key q (fl_trans s) /\ g q = i.
+  Proof.
+    intro Hi. unfold m, fl_number in Hi. simpl in Hi. fold keys in Hi.
+    rewrite <- (wnum_seq keys (i_nodup _ _ _ HI)) in Hi. apply in_map_iff in Hi. destruct Hi as [q [E Hq]].
+    exists q. split; [apply key_In; exact Hq|exact E].
+  Qed.
+
+  Lemma m_acc_from q w : key q (fl_trans s) -> dfa_acc_from m (Some (g q)) w = wacc s q w.
+  Proof. intro Hk. exact (num_acc_from syms s done HI w q Hk). Qed.
+
+  Lemma m_reach q : key q (fl_trans s) -> exists x, dfa_run m (Some (d_init m)) x = Some (g q).
+  Proof.
+    intro Hk. destruct (m_acc _ _ HM q Hk) as [x Hx]. exists x. change (d_init m) with (g []).
+    pose proof (num_run syms s done HI x [] (root_key s done HI)) as Hr. fold keys in Hr. fold g in Hr. fold m in Hr.
+    rewrite Hr. transitivity (option_map g (Some q)); [f_equal; exact Hx|reflexivity].
+  Qed.
+
+  Lemma m_dist_states r1 r2 : In r1 (d_states m) -> In r2 (d_states m) -> r1 <> r2 ->
+    exists w, dfa_acc_from m (Some r1) w <> dfa_acc_from m (Some r2) w.
+  Proof.
+    intros H1 H2 Hn. destruct (state_key r1 H1) as [q1 [K1 <-]]. destruct (state_key r2 H2) as [q2 [K2 <-]].
+    destruct (final_dist s done HI HM Hne q1 q2 K1 K2) as [w Hw]; [congruence|].
+    exists w. rewrite !m_acc_from by assumption. exact Hw.
+  Qed.
+
+  Lemma m_live r : In r (d_states m) -> exists w, dfa_acc_from m (Some r) w = true.
+  Proof.
+    intro H. destruct (state_key r H) as [q [K <-]]. destruct (final_live s done HI Hne q K) as [v Hv].
+    exists v. rewrite m_acc_from by assumption. exact Hv.
+  Qed.
+
+  Theorem partial_is_minimal : is_minimal m = true.
+  Proof.
+    apply is_minimal_intro.
+    - exact m_valid.
+    - intros r Hr. destruct (state_key r Hr) as [q [K <-]]. apply m_reach. exact K.
+    - exact m_dist_states.
+    - intros _. exact m_live.
+  Qed.
+
+  (* the complete form *)
+  Let mc := fl_complete m.
+  Let trap := fresh_state m.
+
+  Lemma mc_run x : forall q t, In q (d_states m) -> dfa_run m (Some q) x = Some t -> dfa_run mc (Some q) x = Some t.
+  Proof.
+    induction x as [|a x IH]; intros q t Hq H; simpl in *; [exact H|].
+    destruct (d_delta m q a) as [t'|] eqn:Ed; [|rewrite dfa_run_None in H; discriminate].
+    unfold mc. rewrite fl_complete_completed. rewrite (completed_delta m m_valid q a Hq), Ed.
+    destruct (delta_in_states m m_valid _ _ _ Ed) as [Ht Ha]. apply memb_In in Ha. rewrite Ha.
+    apply (IH t' t Ht H).
+  Qed.
+
+  Lemma init_state : In (d_init m) (d_states m).
+  Proof. destruct (valid_dfa_parts m m_valid) as (_ & _ & _ & _ & _ & H & _). exact H. Qed.
+
+  Lemma trap_reached : syms <> [] -> exists x, dfa_run mc (Some (d_init mc)) x = Some trap.
+  Proof.
+    intro Hs. destruct syms as [|a0 syms'] eqn:Esy; [contradiction|]. rewrite <- Esy in *.
+    destruct (longest_end s done HI Hne) as [w [q [Hw Hend]]].
+    assert (Hk : key q (fl_trans s)) by (apply (run_key s done HI w [] q (root_key s done HI) Hw)).
+    exists (w ++ [a0]). rewrite dfa_run_app. change (d_init mc) with (d_init m).
+    assert (Hrun : dfa_run m (Some (d_init m)) w = Some (g q)).
+    { change (d_init m) with (g []). pose proof (num_run syms s done HI w [] (root_key s done HI)) as Hr.
 Show.
 Abort.
